@@ -14,12 +14,12 @@ def merged(a, k):
     return d
 
 
-for (l, tier) in ((0, 'thorough'), (5, 'quick'), (64, 'thorough'), (70, 'quick'), (130, 'thorough')):
+for (l, tier) in ((0, 'thorough'), (5, 'quick'), (64, 'thorough'), (70, 'thorough'), (130, 'thorough')):
     for kind, kn in enumerate(('iter', 'one_iter', 'zero_iter')):
         for k in (4, 6):
             inst(P, 'c10_bv_%s_l%d_k%d' % (kn, l, k), 'c10::bitvector(%d, %d, %d)' % (l, k, kind), tier=tier if k == 4 else 'thorough', unwind=26,
                  unwindset=merged({r'OneIter<.*> as std::iter::Iterator>::(next|nth)$': 5, r'OneIter<.*> as std::iter::DoubleEndedIterator>::next_back$': 5, r'c01::any_bits': 5, r'advance_back_by': l + 3, r'advance_by': l + 3}, k),
-                 cap=900, cap_thorough=3600, mem=8, weight=l + 10 * k,
+                 cap=900, cap_thorough=3600, mem=8 if l < 64 else 20, weight=l + 10 * k,
                  desc='BitVector::%s over %d symbolic bits: %d calls of symbolic kind next/next_back/nth(n)/nth_back(n), n over all usize; item, rank and len() checked at every step' % (kn, l, k),
                  shape={'len': l, 'calls': k, 'iterator': kn})
 for (w, n, tier) in ((13, 5, 'quick'), (64, 3, 'thorough'), (1, 0, 'thorough')):
